@@ -49,7 +49,7 @@ def _subquery_resource(e, row, c):
     return None
 
 
-@lemma("sched/sql/SELECT_NEXT_STEP.exact", props=["C10", "C12", "C03", "C11"],
+@lemma("sched/sql/SELECT_NEXT_STEP.exact", props=["C10", "C12", "C03", "C11", "C04"],
        note="the dispatch query selects a step iff the property's eligibility predicate holds, over the cached columns")
 def select_next_step():
     c = cur()
